@@ -93,6 +93,8 @@ pub struct Exec {
     pub last_p: Option<(Vec<String>, usize)>,
     pub last_v: Option<(Vec<String>, usize)>,
     pub proved: bool,
+    /// the subject invoked the closures in registration order
+    pub in_order: bool,
 }
 
 fn hs<F: ark_ff::PrimeField>(v: &[Variable<F>]) -> Vec<String> {
@@ -191,6 +193,7 @@ pub fn exec<G: Cv>(sh: &Shared<G>, h: &[u8]) -> Exec {
             }
         }
     }
+    out.in_order = pctx.closure_order.windows(2).all(|w| w[0] < w[1]) && vctx.closure_order.windows(2).all(|w| w[0] < w[1]);
     out.last_p = pctx.trace.last().map(|c| (hs(&c.handles), c.mult_len));
     out.last_v = vctx.trace.last().map(|c| (hs(&c.handles), c.mult_len));
     out.problems = problems;
@@ -437,7 +440,10 @@ impl Model for AllocMerged {
 pub fn merged_ok<G: Cv>(sh: &Shared<G>, s: &MState) -> Vec<String> {
     let e = exec::<G>(sh, &s.hist);
     let mut problems = e.problems.clone();
-    if s.hist.is_empty() || s.ended || *s.hist.last().unwrap() == P2 {
+    if s.hist.is_empty() || s.ended || *s.hist.last().unwrap() == P2 || !e.in_order {
+        // (the abstract model lists the calls in registration order; if the subject invokes the
+        // closures in another order the call-by-call comparisons above still apply, the
+        // last-call prediction does not)
         return problems;
     }
     for (who, last) in [("prover", &e.last_p), ("verifier", &e.last_v)] {
